@@ -71,12 +71,21 @@ impl Found {
 pub struct Sink {
     pub found: Vec<Found>,
     pub hits: BTreeMap<&'static str, u64>,
+    /// the application has broken its contract in this history (released an id that an exchange still owns): from here
+    /// on only the rules that hold whatever the application does are reported
+    pub misused: bool,
 }
+/// rules that do not depend on the application keeping its contract
+const UNCONDITIONAL: &[&str] = &["X1-no-panic", "X2-recv-makes-progress", "Z1-sent-size-within-peer-maximum", "Z3-oversize-inbound-not-delivered", "X6-partial-frame-yields-no-events", "X7-overlong-remaining-length-is-an-error", "X8-at-most-one-packet-per-call", "S10-sent-publish-or-pubrel-is-one-well-formed-frame"];
 impl Sink {
     pub fn hit(&mut self, rule: &'static str) {
         *self.hits.entry(rule).or_insert(0) += 1;
     }
     pub fn fail(&mut self, property: &'static str, rule: &'static str, attrs: String, what: String) {
+        if self.misused && !UNCONDITIONAL.contains(&rule) {
+            self.hit("not-judged-after-application-misuse");
+            return;
+        }
         self.found.push(Found { property, rule, attrs, what });
     }
 }
